@@ -192,7 +192,7 @@ func r053(c *Ctx) {
 		var sawPrefixEq, sawNameNeq bool
 		extra := 0
 		for _, ce := range dominatingCondsOtherThanLoop(ret) {
-			cm, ok := asCmp(ce.cond, ce.taken)
+			cm, ok := ce.asCmp()
 			if !ok {
 				extra++
 				continue
